@@ -13,6 +13,7 @@ import (
 type o1Entry struct {
 	res string
 	run int
+	obj unsafe.Pointer
 }
 
 var (
@@ -167,7 +168,18 @@ func checkEq(res *runResult, run int) []Violation {
 	for _, p := range res.eq {
 		eqCompared++
 		if e, ok := eqTable[p.key]; ok {
-			if e.res != p.bytes {
+			if !apis[p.ver].PtrFree() {
+				// a value type with pointers inside cannot be rebuilt from bytes:
+				// compare live copies with ==
+				if e.obj != nil && p.obj != nil && !apis[p.ver].Equal(e.obj, p.obj) {
+					nr := e.run
+					if nr == run {
+						nr = -1
+					}
+					v = append(v, Violation{Prop: "C07", Class: "same-values-not-equal", Task: p.task, Op: p.op,
+						Detail: fmt.Sprintf("two v%d objects with metric values %s are not == (the value type contains pointers)", p.ver, p.key), NeedsRun: nr})
+				}
+			} else if e.res != p.bytes {
 				// == on the value types is what the property names; compare that way
 				a := apis[p.ver]
 				x, y := a.New(), a.New()
@@ -187,7 +199,7 @@ func checkEq(res *runResult, run int) []Violation {
 		if len(eqTable) >= o1Cap {
 			eqTable = map[string]o1Entry{}
 		}
-		eqTable[p.key] = o1Entry{res: p.bytes, run: run}
+		eqTable[p.key] = o1Entry{res: p.bytes, run: run, obj: p.obj}
 	}
 	return v
 }
